@@ -53,6 +53,33 @@ CHECKS["C11"] = dict(
          "independently), one-notification histories, os.walk stub, VM semantics (native replay), z3.",
 )
 
+CHECKS["C13"] = dict(
+    engine="sbvm",
+    technique="SMT (z3) over a symbolic execution of BaseObserver's registry methods (and the interpreted stdlib "
+              "queue.Queue) on symbolic API call sequences with a fault injected at a symbolic position; oracle = "
+              "reference map kept by the harness",
+    level=("model_checking",
+           "All sequences of 3 (thorough: 4) calls drawn from schedule/unschedule/add/remove handler/unschedule_all/"
+           "start/stop over 4 watches x 2 handlers, with an emitter-construction or emitter-start failure at any "
+           "position, are decided by the solver against a reference map; after every call the reported emitters and, "
+           "at the end, the recipients of a marker event per watch must agree with it.", "DESIGN.md section 9, C13"),
+    note="Trusted: single-threaded threading models (Thread.start only records), scripted emitter class, VM semantics "
+         "(native replay), z3. Longer sequences and concurrent callers are outside (C04-C06).",
+)
+CHECKS["C14"] = dict(
+    engine="sbvm+crosshair",
+    technique="SMT (z3) over a symbolic execution of generate_sub_moved_events/generate_sub_created_events on "
+              "symbolic trees with colliding names (SBVM), plus CrossHair (z3-backed symbolic execution) of the same "
+              "functions on symbolic strings",
+    level=("model_checking",
+           "SBVM: every tree over 9 nodes (names a, b, ab; presence and kind symbolic) x 10 source/destination "
+           "spellings x str/bytes is decided: one event per descendant, right paths, right flavour, parents first, "
+           "nothing else. CrossHair: arbitrary names and directory paths up to the stated lengths over {a,b,/} on a "
+           "fixed two-level shape, 'Confirmed over all paths', with a reachability twin.", "DESIGN.md section 9, C14"),
+    note="Trusted: os.walk replaced by a walk of the symbolic tree; CrossHair's string model; VM semantics (native "
+         "replay). The third occurrence of the prefix rewrite (watch re-keying) is checked under C02.",
+)
+
 NOT_YET = "check not built yet (work in progress; see DESIGN.md section 11 for the order)"
 NA = {}
 
